@@ -5,7 +5,7 @@ import numpy as np
 from hypothesis import strategies as st
 
 from .. import gen, model
-from ..core import Ctx, Violation, call, check, per_shard, run_given
+from ..core import Ctx, Violation, call, check, per_shard, run_given, given_part, machine_part, run_parts
 
 PID = "C14"
 LEVEL = "exploration"
@@ -390,8 +390,8 @@ def replay(ctx: Ctx, case):
 
 def run(ctx: Ctx):
     q = ctx.tier == "quick"
-    if not run_given(ctx, "selector", selector_cases(), check_selector, per_shard(ctx, 2400 if q else 60000)):
-        return
-    if not run_given(ctx, "annotate", annotate_cases(), check_annotate, per_shard(ctx, 2400 if q else 60000)):
-        return
-    run_given(ctx, "manycontig", manycontig_cases(), check_manycontig, per_shard(ctx, 16 if q else 320), batch=4)
+    parts = []
+    parts.append(given_part(ctx, "selector", selector_cases(), check_selector, per_shard(ctx, 2400 if q else 60000)))
+    parts.append(given_part(ctx, "annotate", annotate_cases(), check_annotate, per_shard(ctx, 2400 if q else 60000)))
+    parts.append(given_part(ctx, "manycontig", manycontig_cases(), check_manycontig, per_shard(ctx, 16 if q else 320), batch=4))
+    run_parts(ctx, parts)
